@@ -21,8 +21,10 @@ Fixpoint dedup (l : list (bool * list ftype)) : list (bool * list ftype) :=
   | x :: r => if existsb (fun y => ftype_eqb (as_type x) (as_type y)) r then dedup r else x :: dedup r
   end.
 Definition TABLE_UNIONS : list (bool * list ftype) := dedup (unions_of_table CLASSES).
-Theorem Schema_unions_count : List.length (unions_of_table CLASSES) = 248%nat /\ List.length TABLE_UNIONS = 15%nat.
-Proof. split; vm_compute; reflexivity. Qed.
+(* how many DISTINCT unions the live classes write (how often each is written is incidental: a new property or a newly modelled
+   class that re-uses these unions changes the occurrence count -- 248 when this was written -- and nothing else) *)
+Theorem Schema_unions_count : List.length TABLE_UNIONS = 15%nat.
+Proof. vm_compute; reflexivity. Qed.
 
 Section Table.
   Variable core : leaf -> value -> res value.
